@@ -43,7 +43,14 @@ def run(ctx):
     # allocations with alternatives (the choice looks at the bookings made so far) in projects with a second scenario:
     # the intruder must be harmless in every scenario
     for ap in gens.family(ctx, "alts", ctx.n(60, 500)) + gens.family(ctx, "subslot", ctx.n(20, 200)):
-        ap["scenario_lines"] = [ctx.rng.choice(['scenario plan "plan" { scenario s1 "s1" }', 'scenario plan "plan" { scenario s1 "s1" scenario s2 "s2" }'])]
+        ap["scenario_lines"] = [ctx.rng.choice(['scenario plan "plan" { scenario s1 "s1" }', 'scenario plan "plan" { scenario s1 "s1" scenario s2 "s2" }',
+                                                'scenario plan "plan" { scenario s1 "s1" { scenario s2 "s2" } }'])]
+        if "{ scenario s2" in ap["scenario_lines"][0]:
+            # nested scenarios: some tasks give s1 an effort of its own, which s2 inherits
+            ap["_nested"] = True
+            for _, n in projects.walk(ap["tasks"]):
+                if "kids" not in n and n.get("effort") and ctx.rng.random() < 0.5:
+                    n.setdefault("sc_attrs", []).append(("s1", "effort", n["effort"] + ctx.rng.choice([60, 120, 240])))
         ap["_family"] = "scen" + str(ap.get("_family"))
         base.append(ap)
     withx = []
@@ -69,6 +76,10 @@ def run(ctx):
         if eff and min(eff) > 2 and ctx.rng.random() < 0.7:
             x["prio"] = min(eff) - 1
         pos = ctx.rng.randint(0, len(ap2["tasks"]))
+        if ap2.get("_nested") and x.get("effort"):
+            # the intruder writes a value of its own for the innermost scenario and is declared first
+            x.setdefault("sc_attrs", []).append(("s2", "effort", x["effort"] + 60))
+            pos = 0
         ap2["tasks"].insert(pos, x)
         withx.append(ap2)
     ra = projects.schedule_all(ctx, base, ledger=False)
